@@ -27,11 +27,12 @@ EPOCH = datetime.datetime.fromtimestamp(0, tz=datetime.timezone.utc)
 BASE_US = 1_000_000_000_000  # simulated epoch offset: 1e6 s
 
 
-class SimKilled(BaseException):
-    """Raised inside a parked simulated thread at teardown."""
+class SimKilled(SystemExit):
+    """Raised inside a parked simulated thread at teardown.  (SystemExit: asyncio's Handle._run hands every other
+    BaseException to the loop's exception handler and carries on - the killed loop thread would never end.)"""
 
 
-class StepLimit(BaseException):
+class StepLimit(SystemExit):
     """Step budget of one run exhausted."""
 
 
@@ -65,7 +66,8 @@ class Sim:
         self.done.acquire()
         self.failure = None
         self.killing = False
-        self.faults = {"preempt": 0, "spurious_wakeup": 0, "clock_drift": 0, "timer_fired": 0}
+        self.faults = {"preempt": 0, "spurious_wakeup": 0, "clock_drift": 0, "timer_fired": 0, "stall": 0}
+        self.stall_p = 0.0
         self.thread_errors = []
         self.seq = 0  # global event sequence number for harness logs
         self.finished = False
@@ -166,7 +168,12 @@ class Sim:
             if self.drift_p and self.rng.random() < self.drift_p:
                 self.now += self.rng.choice([1000, 50_000, 1_000_000])  # the descheduled thread loses time
                 self.faults["clock_drift"] += 1
-            if len(self.runnable()) >= 1:
+            if self.stall_p and self.rng.random() < self.stall_p:
+                # a stalled thread: descheduled for a stretch of simulated time, whatever else is runnable (timers fire meanwhile)
+                self.faults["stall"] += 1
+                self.add_timer(self.rng.choice([300, 1500, 6000, 40_000]) / 1e6, lambda: self.wake(me))
+                self.block("stall")  # (state "blocked", blocked_on "stall": not waiting for anything of its own)
+            elif len(self.runnable()) >= 1:
                 self.faults["preempt"] += 1
                 me.state = "ready"
                 self.switch_from(me, site, exclude_me=True)
@@ -693,10 +700,11 @@ import logging
 logging.getLogger("Rx").setLevel(logging.ERROR)
 
 
-def run_sim(body, seed, cps=(), record=False, spurious_p=0.0, drift_p=0.0, trace_extra=(), wall=150.0, max_steps=400000, setup=None, opcode_files=()):
+def run_sim(body, seed, cps=(), record=False, spurious_p=0.0, drift_p=0.0, trace_extra=(), wall=150.0, max_steps=400000, setup=None, opcode_files=(), stall_p=0.0):
     """Run `body(sim, shim)` as the main workload thread under a fresh simulator with reactivex patched."""
     sim = Sim(seed, cps or (), record, spurious_p, drift_p, max_steps, trace_extra)
     sim.opcode_files = tuple(opcode_files or ())
+    sim.stall_p = stall_p
     shim = make_shim(sim)
     saved = patch(sim, shim)
     try:
@@ -737,7 +745,7 @@ def sweep(execute, sc, cap=120, per_key=3):
     agg.probes.update(first.probes)
     agg.probes["single_preemption_sweeps"] += 1
     if first.viol:
-        agg.viol, agg.witness = first.viol, (first.witness or dict(sc, cps=[]))
+        agg.viol, agg.witness = first.viol, {k: v for k, v in (first.witness or dict(sc, cps=[])).items() if k != "_record"}
     rec = dict(LAST_RECORD)
     focus = rec.get("focus") or ()
     by_key = {}
@@ -784,7 +792,7 @@ def explore(sc, body_factory, out, **kw):
             out.evals += 1
         else:
             cps = []
-    sim = run_sim(body_factory(), sched["seed"], cps, record=bool(sc.get("_record")), spurious_p=spurious, drift_p=drift, **kw)
+    sim = run_sim(body_factory(), sched["seed"], cps, record=bool(sc.get("_record")), spurious_p=spurious, drift_p=drift, stall_p=sched.get("stall", 0.0), **kw)
     if sc.get("_record"):
         LAST_RECORD.update(sites=sim.sites, marker=sim.marker, focus=focus)
     out.steps += sim.steps
@@ -795,10 +803,12 @@ def explore(sc, body_factory, out, **kw):
     return sim, cps
 
 
-def gen_sched(rng, ks=(0, 1, 2, 2, 3, 3), spurious_p=0.0, drift_p=0.0, sweep_p=0.0, opcode_p=0.2):
+def gen_sched(rng, ks=(0, 1, 2, 2, 3, 3), spurious_p=0.0, drift_p=0.0, sweep_p=0.0, opcode_p=0.2, stall_p=0.0):
     d = {"seed": rng.getrandbits(32), "k": rng.choice(ks),
          "spurious": rng.choice([0.0, spurious_p]) if spurious_p else 0.0,
          "drift": rng.choice([0.0, 0.0, drift_p]) if drift_p else 0.0}
+    if stall_p and rng.random() < 0.5:
+        d["stall"] = stall_p  # a forced pre-emption is, with this probability, a stall: the thread stays off the CPU for 0.3-40 ms of simulated time
     if opcode_p and rng.random() < opcode_p:
         d["opcodes"] = True  # pre-emption points at every bytecode of the focus files (else: at every line)
     if sweep_p and rng.random() < sweep_p:
